@@ -95,6 +95,9 @@ class RepeatingEventBase(EventBase):
         presentation_time += event_id * self.interval
         retval = []
         while presentation_time < seg_end:
+            if self.count > 0 and event_id >= self.count:
+                # the schedule has only the events 0 .. count-1
+                break
             if presentation_time < seg_start:
                 event_id += 1
                 presentation_time += self.interval
